@@ -23,6 +23,7 @@ type gPod struct {
 	ready, deleting     bool
 	labels              []string
 	extra               []string // labels and pseudo labels fixed for the life of the pod (hostname/subdomain, istio-locality, network)
+	owner               string   // controller ownerReference (pseudo label @owner); changes in place (adoption / orphaning)
 	sa, node            string
 }
 
@@ -89,7 +90,15 @@ func sortedNames[V any](m map[string]V) []string {
 
 func (g *genState) podLine(p *gPod) {
 	g.emit("pod", p.ns, p.name, wire.Enc(p.ip), p.phase, wire.B(p.ready), wire.B(p.deleting),
-		wire.EncList(append(append([]string{}, p.labels...), p.extra...)), p.sa, wire.Enc(p.node))
+		wire.EncList(g.podLabels(p)), p.sa, wire.Enc(p.node))
+}
+
+func (g *genState) podLabels(p *gPod) []string {
+	l := append(append([]string{}, p.labels...), p.extra...)
+	if p.owner != "" {
+		l = append(l, "@owner="+p.owner)
+	}
+	return l
 }
 
 func (g *genState) svcLine(s *gSvc) {
@@ -189,6 +198,14 @@ func (g *genState) mkEp(ns, addr string) gEp {
 			if r.Chance(1, 5) {
 				e.target = ns + ":" + wire.Pick(r, []string{"p1", "p2", "p3"})
 			}
+			if g.wide && len(g.nss) > 1 && r.Chance(1, 6) {
+				// a targetRef into ANOTHER namespace (legal for a hand-written slice; the slice controller never writes it)
+				other := "n1"
+				if ns == "n1" {
+					other = "n2"
+				}
+				e.target = other + ":" + wire.Pick(r, []string{"p1", "p2"})
+			}
 		}
 	}
 	if r.Chance(1, 4) {
@@ -251,7 +268,7 @@ func (g *genState) opPod() {
 		g.podLine(p)
 		return
 	}
-	switch r.Intn(12) {
+	switch r.Intn(13) {
 	case 0, 1:
 		if p.ip == "" {
 			p.ip = g.pickIP(name)
@@ -273,7 +290,7 @@ func (g *genState) opPod() {
 		if r.Chance(1, 2) {
 			p.ip = "" // eviction removes the IP in the same update
 		}
-	case 7:
+	case 7, 12:
 		p.ip = g.pickIP(name) // IP change
 		if r.Chance(1, 3) {
 			p.ready = false // ... and not ready any more, in one write (deleteIP then looks under the NEW IP)
@@ -290,9 +307,43 @@ func (g *genState) opPod() {
 		g.emit("delpod", ns, name)
 		return
 	default:
-		p.phase = wire.Pick(r, []string{"P", "R"})
+		switch r.Intn(4) {
+		case 0:
+			p.phase = wire.Pick(r, []string{"P", "R"})
+		case 1:
+			// in-place change of the node (k1 -> k2 too): replays the slices that refer to the pod
+			p.node = wire.Pick(r, []string{"k1", "k2"})
+		case 2:
+			// ... of the service account
+			if p.sa == "sa1" {
+				p.sa = "sa2"
+			} else {
+				p.sa = "sa1"
+			}
+		default:
+			// ... of the controller ownerReference (adoption / orphaning)
+			if p.owner == "" {
+				p.owner = wire.Pick(r, []string{"ss1", "ss2"})
+			} else {
+				p.owner = wire.Pick(r, []string{"", "ss2"})
+			}
+		}
 	}
 	g.podLine(p)
+	g.maybeDeleteInWindow("delpod", ns, name, func() { delete(g.pods, k) })
+}
+
+// maybeDeleteInWindow: inside a hold window an update is sometimes followed at once by the delete of the same object -
+// the Update handler then finds the object gone and the Delete handler sees only its last version
+func (g *genState) maybeDeleteInWindow(op, a, b string, forget func()) {
+	if g.held && g.r.Chance(1, 5) {
+		forget()
+		if b == "" {
+			g.emit(op, a)
+		} else {
+			g.emit(op, a, b)
+		}
+	}
 }
 
 func (g *genState) opSvc() {
@@ -343,6 +394,7 @@ func (g *genState) opSvc() {
 		}
 	}
 	g.svcLine(s)
+	g.maybeDeleteInWindow("delsvc", ns, name, func() { delete(g.svcs, k) })
 }
 
 func (g *genState) candidateAddrs(ns string) []string {
@@ -385,7 +437,7 @@ func (g *genState) opSlice() {
 		}
 		g.slices[k] = s
 	}
-	if s.svc != "" && !g.held && r.Chance(1, 15) {
+	if s.svc != "" && (r.Chance(1, 15) || (g.held && r.Chance(1, 6))) {
 		// the service-name label of an existing slice is edited (legal, never done by the slice controller)
 		if s.svc == "a" {
 			s.svc = "b"
@@ -437,6 +489,7 @@ func (g *genState) opSlice() {
 	}
 	s.eps = eps
 	g.sliceLine(s)
+	g.maybeDeleteInWindow("delslice", ns, name, func() { delete(g.slices, k) })
 }
 
 // refresh keeps an endpoint as it is (the slice is rewritten unchanged): the controller then
@@ -454,6 +507,7 @@ func (g *genState) opNs() {
 	td := wire.Pick(r, []string{"close", "~", "~"})
 	g.nsObj[name] = td
 	g.emit("ns", name, td)
+	g.maybeDeleteInWindow("delns", name, "", func() { delete(g.nsObj, name) })
 }
 
 func (g *genState) opNode() {
@@ -523,11 +577,9 @@ func gen(stream string, seed uint64, n int, outp string) {
 			case x < 12:
 				// recomputeServiceForPod stops at the first matching Service that is not yet in servicesMap, in the
 				// (random) order of the lister: no Service write after a Pod write inside one hold window
-				if g.held && g.podInWindow {
-					g.opSlice()
-				} else {
-					g.opSvc()
-				}
+				// (a Service write after a Pod write inside one window used to be excluded: recomputeServiceForPod ended its loop
+				// at the first Service missing from servicesMap, in lister order - fixed by bcf9457)
+				g.opSvc()
 			case x < 17:
 				g.opSlice()
 			case x == 17 || (x == 16 && g.withNs):
@@ -557,6 +609,9 @@ func gen(stream string, seed uint64, n int, outp string) {
 		for i := len(order) - 1; i > 0; i-- {
 			j := r.Intn(i + 1)
 			order[i], order[j] = order[j], order[i]
+		}
+		if r.Chance(1, 3) {
+			order = append(order, "rev") // the Add events of one kind in the opposite order
 		}
 		out.Line("cold", wire.EncList(order))
 	}
